@@ -427,9 +427,7 @@ func mapIndex(m, key reflect.Value) (v reflect.Value) {
 // number, or a string that spells one, can be an index; a word, a boolean or
 // null is not silently taken for index 0.
 func sliceIndex(attr Value) (int, bool) {
-	if sv, ok := attr.(SafeValue); ok {
-		attr = sv.Value()
-	}
+	attr = withoutSafe(attr)
 	if _, ok := attr.(Number); ok {
 		return int(CoerceNumber(attr)), true
 	}
@@ -769,9 +767,7 @@ func equalContainers(left, right Value, seen map[comparison]bool) bool {
 
 // Contains returns true if the haystack Value contains needle.
 func Contains(haystack Value, needle Value) (bool, error) {
-	if sv, ok := haystack.(SafeValue); ok {
-		haystack = sv.Value()
-	}
+	haystack = withoutSafe(haystack)
 	if reflect.ValueOf(haystack).Kind() == reflect.String {
 		// In a string, "in" is the substring test.
 		return strings.Contains(CoerceString(haystack), CoerceString(needle)), nil
